@@ -814,7 +814,8 @@ class J1939_22:
         dest_address = pgn.pdu_specific # may be Address.GLOBAL
 
         # iterate all CAs to check if we have to handle this destination address
-        if dest_address != ParameterGroupNumber.Address.GLOBAL:
+        # (PDU2 messages are broadcasts: their PS byte is a group extension, not a destination)
+        if (dest_address != ParameterGroupNumber.Address.GLOBAL) and not pgn.is_pdu2_format:
             if not self.__ecu_is_message_acceptable(dest_address): # simple peer-to-peer reception without adding a controller-application
                 reject = True
                 for ca in self._cas:
